@@ -77,8 +77,43 @@ pub fn record_temp(seed: u64, thorough: bool, path: &str) -> Value {
     hooks::set_thread_tag(threads + 4);
     let pid_s = std::process::id().to_string();
     let mut early: Vec<(String, String)> = Vec::new();
-    for part in [format!("adv-{}", pid_s), format!("adv{}_", pid_s), format!("adv_{}_0", pid_s), "adv-".to_string(), format!("adv-{}{}", pid_s, pid_s)] {
+    for _ in 0..3 { for part in [format!("adv-{}", pid_s), format!("adv{}_", pid_s), format!("adv_{}_0", pid_s), "adv-".to_string(), format!("adv-{}{}", pid_s, pid_s)] {
         early.push((part.clone(), temp_file_name(&part).to_string_lossy().to_string()));
+    } }
+    // adversarial requests: for every name N handed out early and every way to split it into a prefix B and a rest that ends in a
+    // number c above the current counter value, the counter is moved to c and a name is requested for the part B.  If the function
+    // glues part, process id and counter together without unambiguous separators, one of these requests returns N again.
+    hooks::set_thread_tag(threads + 4);
+    {
+        // (done first, while the counter is small: this process has taken fewer than ten names; if the value cannot be read from a name, 64 is assumed)
+        let cur = parse_count(&temp_file_name("verif-temp-cur")).unwrap_or(64);
+        let tmp = std::env::temp_dir().to_string_lossy().to_string();
+        // The counter only moves forward (a legal history), so each counter value c is used for ONE request: among the prefixes that fit c,
+        // those whose rest begins with the process id come first (shortest first); the three instances of each early name try the first,
+        // second and third of them.
+        let mut probes: Vec<(usize, String)> = Vec::new();
+        for (inst, (_, full)) in early.iter().enumerate() {
+            let n = full.strip_prefix(tmp.as_str()).map(|x| x.trim_start_matches('/')).unwrap_or(full.as_str());
+            if !n.is_ascii() { continue; }
+            let mut by_c: std::collections::BTreeMap<usize, Vec<(bool, usize)>> = std::collections::BTreeMap::new();
+            for j in 1..n.len() {
+                let rest = &n[j..];
+                for k in 0..rest.len() {
+                    let digits = &rest[k..];
+                    if digits.is_empty() || !digits.bytes().all(|c| c.is_ascii_digit()) || digits.starts_with('0') && digits.len() > 1 { continue; }
+                    if let Ok(c) = digits.parse::<usize>() { if c > cur + 1 && c < (1usize << 30) { by_c.entry(c).or_default().push((!rest.starts_with(pid_s.as_str()), j)); } }
+                }
+            }
+            for (c, mut cands) in by_c { cands.sort(); cands.dedup(); let (_, j) = cands[(inst / 5) % cands.len()]; probes.push((c, n[..j].to_string())); }
+        }
+        probes.sort(); probes.dedup();
+        let mut at = cur;
+        for (c, b) in probes.into_iter().take(1500) {
+            if c <= at { continue; }
+            hooks::force_store_all(c);
+            early.push((b.clone(), temp_file_name(&b).to_string_lossy().to_string()));
+            at = c + 1;
+        }
     }
     let mut handles = Vec::new();
     for t in 0..threads {
@@ -91,35 +126,6 @@ pub fn record_temp(seed: u64, thorough: bool, path: &str) -> Value {
         }));
     }
     let mut results: Vec<Vec<(String, String)>> = handles.into_iter().map(|h| h.join().unwrap()).collect();
-    // adversarial requests: for every name N handed out early and every way to split it into a prefix B and a rest that ends in a
-    // number c above the current counter value, the counter is moved to c and a name is requested for the part B.  If the function
-    // glues part, process id and counter together without unambiguous separators, one of these requests returns N again.
-    hooks::set_thread_tag(threads + 4);
-    {
-        let cur = parse_count(&temp_file_name("verif-temp-cur")).unwrap_or(usize::MAX);
-        let tmp = std::env::temp_dir().to_string_lossy().to_string();
-        let mut probes: Vec<(usize, String)> = Vec::new();
-        for (_, full) in early.iter() {
-            let n = full.strip_prefix(tmp.as_str()).map(|x| x.trim_start_matches('/')).unwrap_or(full.as_str());
-            if !n.is_ascii() { continue; }
-            for j in 1..n.len() {
-                let (b, rest) = n.split_at(j);
-                for k in 0..rest.len() {
-                    let digits = &rest[k..];
-                    if digits.is_empty() || !digits.bytes().all(|c| c.is_ascii_digit()) || digits.starts_with('0') && digits.len() > 1 { continue; }
-                    if let Ok(c) = digits.parse::<usize>() { if cur != usize::MAX && c > cur + 1 && c < (1usize << 40) { probes.push((c, b.to_string())); } }
-                }
-            }
-        }
-        probes.sort(); probes.dedup();
-        let mut at = cur;
-        for (c, b) in probes.into_iter().take(1500) {
-            if c <= at { continue; }
-            hooks::force_store_all(c);
-            early.push((b.clone(), temp_file_name(&b).to_string_lossy().to_string()));
-            at = c + 1;
-        }
-    }
     // name parts that are different texts for the same path: the paths handed out are compared as paths
     hooks::set_thread_tag(threads + 5);
     let mut same: Vec<(String, String)> = Vec::new();
